@@ -379,6 +379,12 @@ func H_C07_actor_keeps_acceptance_order() {
 			vpAssert(got[i] == want[i], "C07: waiters handed to the flush queue are not in acceptance order")
 		}
 		vpAssert(len(waiters) == 0 && len(bufs) == 0 && rowCount == 0 && byteCount == 0, "C05: the actor kept waiters or rows after handing them to a flush")
+		// the queued request owns its waiter list: what the actor appends for the next batch must
+		// not show up in it (the request may sit in the flush queue while the actor carries on)
+		waiters = append(waiters, make(chan error, 2))
+		for i := range want {
+			vpAssert(vpTriggered[0].doneChans[i] == want[i], "C05: a queued flush request shares its waiter list with the ingest actor: the next accepted batch's waiter overwrites a queued one (one batch answered twice, another never)")
+		}
 	} else if kind == 2 {
 		vpAssert(len(waiters) == nOld+1 && waiters[nOld] == d, "C07: an accepted batch's waiter was not appended behind the earlier ones")
 		for i := range old {
@@ -386,6 +392,51 @@ func H_C07_actor_keeps_acceptance_order() {
 		}
 		vpAssert(len(d) == 0, "C06: a buffered batch was acknowledged before any flush")
 	}
+}
+
+//vp:override (*bs.BloomSearchEngine).triggerFlush=vpTriggerRec
+//vp:override (*bs.bloomEntrySets).indexRow=vpIndexRowNop
+//vp:bounds as H_C07_actor_keeps_acceptance_order (answered on the spot exactly once, or queued exactly once in a flush request that owns its waiter list)
+func H_C05_actor_step_answers_or_queues_each_request_once() { H_C07_actor_keeps_acceptance_order() }
+
+// Requests that queue up behind a busy flush worker keep their own waiters: a batch in flight, a
+// Flush caller whose ack-only request waits in the flush queue, then further batches.
+//
+//vp:override (*bs.bloomEntrySets).indexRow=vpIndexRowNop
+//vp:override (*bs.bloomEntrySets).buildFilters=vpBuildFiltersStub
+//vp:override bs.encodeFilterSection=vpEncodeSectionStub
+//vp:maxsteps 300000
+//vp:bounds started engine, ingest buffer 2, MaxBufferedRows 1, store wedged inside CreateFile, no store faults; batch A (its flush in flight), a Flush caller (goroutine) whose ack-only request queues behind it, then batch B and optionally batch C; the store is released once every goroutine has parked; then Stop(background)
+func H_C05_requests_queued_behind_a_busy_flush_keep_their_own_waiters() {
+	w := vpNewWorld()
+	w.failCreate, w.failWrite, w.failClose, w.failUpdate, w.failTombstone = false, false, false, false, false
+	w.wedge = make(chan struct{})
+	b := vpNewIngestSystem(w, vpSysCfg{ingestBuf: 2, maxBufferedRows: 1, maxRowGroupRows: 1000, maxBufferedTime: time.Hour})
+	vpSetClock(2)
+	b.Start()
+	batches := []*vpBatch{vpSubmit(b, context.Background(), 0)}
+	vpQuiesce() // A's flush is parked in CreateFile
+	vpAssert(w.createCalls == 1, "harness: the first flush did not reach the wedged store")
+	fres := make(chan error, 1)
+	go func() { fres <- b.Flush(context.Background()) }()
+	vpQuiesce() // the ack-only request of the Flush caller sits in the flush queue
+	batches = append(batches, vpSubmit(b, context.Background(), 0))
+	if nondetBool() {
+		batches = append(batches, vpSubmit(b, context.Background(), 0))
+	}
+	vpQuiesce()
+	vpAssert(len(fres) == 0, "C07: Flush returned while an earlier batch's flush is still in flight")
+	for _, bt := range batches {
+		vpAssert(bt.accepted && len(bt.done) == 0, "C06: a batch was answered while the store is wedged (nothing can be durable yet)")
+	}
+	close(w.wedge)
+	ferr := <-fres // a Flush that is never answered shows as a deadlock of this harness
+	vpAssert(ferr == nil, "C05: Flush failed although no store call failed")
+	vpAssert(b.Stop(context.Background()) == nil, "C08: Stop without a deadline returned an error")
+	for _, bt := range batches {
+		vpCheckAnswered(w, bt)
+	}
+	vpAssert(w.committedRows == len(batches), "C05: the committed files do not hold exactly the accepted rows")
 }
 
 // ---- C08: Stop and its deadline ----
